@@ -11,7 +11,7 @@ def showDet (st : DetState) : String :=
 
 def showFkm (st : FkmState) : String :=
   let cyc := " ".intercalate (st.cycles.map fun c => s!"{c.1}>{c.2}")
-  s!"cycles={cyc};residuals={joinInts st.res.reverse};rindex={joinInts st.residualIndex};chunks="
+  s!"cycles={cyc};residuals={joinInts st.res.reverse};rindex={joinInts st.residualIndex}"
 
 /-- `rf <detector> <k> <len_1> … <len_k> <v_1> … <v_n>` -/
 def handleRainflow : List String → Option String
